@@ -188,6 +188,7 @@ def gen_tst(rng, n):
             ops.append([1] + offs)
         out.append(Case("tst", "str%d" % i, ops))
     out.append(Case("tst", "stbad", [[1, 10], [2, 5]]))
+    out.append(Case("tst", "stback", [[1, 10, 50], [1, 40, 20]]))    # rejected: goes backwards
     return out
 
 
@@ -196,6 +197,9 @@ def gen_tth(rng, n):
     for _ in range(n):
         ops.append([1, rng.choice([0, 0, 20000, 60000, 5]), rng.choice([10, 25, 40])])
     race = [Case("tth", "thr0", [[2, 0]]), Case("tth", "thr1", [[2, 30000]]), Case("tth", "thr2", [[2, 0], [2, 60000], [2, 5]])]
+    # the same scenarios with the scheduler started in a thread_pool (worker_coro<true>)
+    race += [Case("tth", "thp0", [[3, 0, 20], [3, 30000, 20], [3, 10, 40]]), Case("tth", "thp1", [[4, 0]]), Case("tth", "thp2", [[4, 30000]]),
+             Case("tth", "thp3", [[3, rng.choice([0, 20000, 5]), rng.choice([10, 25, 40])] for _ in range(max(2, n))] + [[4, 60000], [4, 7], [3, 5]])]
     return [Case("tth", "th0", ops[:3]), Case("tth", "th1", ops[3:] + [[1, 5]])] + race
 
 
